@@ -11,7 +11,7 @@
    it is [run c (init c n0) cs] for calls [cs] satisfying [wf_call].  [exact Floor n d] / [exact Ceil n d]
    (Proofs/Math.v, C12) are floor / ceiling of the rational n/d. *)
 From SC Require Import Lib.Prelude Lib.Int Lib.Host Model.Math Proofs.Math Model.Vault
-  Proofs.VaultSpec Proofs.VaultToken Proofs.VaultOps Proofs.VaultRate Proofs.VaultTrips Proofs.VaultLive Proofs.C05Final
+  Proofs.VaultSpec Proofs.VaultToken Proofs.VaultOps Proofs.VaultRate Proofs.VaultTrips Proofs.VaultLive Proofs.C05Final Proofs.VaultWealth Proofs.C05Final2
   Run.C05 Proofs.C05Monitor.
 
 (* ---- the vault's configuration: the constructor succeeds exactly for an offset <= MAX_DECIMALS_OFFSET whose
@@ -160,6 +160,74 @@ Theorem C05_profit_bounded_by_rate : forall c n0 cs0 a r f o au s1 sh e1 cs x r'
 Proof. exact profit_bounded_final. Qed.
 Print Assumptions C05_profit_bounded_by_rate.
 
+(* the same bound for all four ways in and out: in by deposit or mint ([a] assets for [sh] shares at state s), any
+   history, out by redeem or withdraw of at most those shares ([a'] assets for [x] <= [sh] shares at state s2) *)
+Theorem C05_in_out_bounded_by_rate : forall c n0 cs0 cin s1 vin e1 cs cout s3 vout e2,
+  0 <= c_off c -> forallb wf_call cs0 = true ->
+  let s := run c (init c n0) cs0 in let P := 10 ^ c_off c in
+  wf_call cin = true -> forallb wf_call cs = true -> wf_call cout = true ->
+  step c s cin = (s1, Ok (vin, e1)) ->
+  step c (run c s1 cs) cout = (s3, Ok (vout, e2)) ->
+  let s2 := run c s1 cs in
+  let a := match cin with Deposit a _ _ _ _ => a | _ => vin end in
+  let sh := match cin with Deposit _ _ _ _ _ => vin | _ => call_amount cin end in
+  let a' := match cout with Redeem _ _ _ _ _ => vout | _ => call_amount cout end in
+  let x := match cout with Redeem x _ _ _ _ => x | _ => vout end in
+  match cin, cout with
+  | (Deposit _ _ _ _ _ | MintS _ _ _ _ _), (Redeem _ _ _ _ _ | Withdraw _ _ _ _ _) =>
+      x <= sh ->
+      a' * (total_supply s2 + P) * (total_assets s + 1) <= a * (total_assets s2 + 1) * (total_supply s + P)
+  | _, _ => True
+  end.
+Proof. exact in_out_bounded_final. Qed.
+Print Assumptions C05_in_out_bounded_by_rate.
+
+(* ---- the per-participant reading of the headline clause.
+   wealth(u, s) = assets u holds + his shares at the rate of s = abal u + sb u * (A+1)/(S+P).
+   An operation a participant performs for himself (receiver = from/owner = operator = u) never increases his
+   wealth, measured after the operation at the new rate against before at the old rate (cross-multiplied by the
+   two positive denominators): rounding only ever costs the one who acts.  By C05_rate_monotone every OTHER step
+   can only raise the rate, i.e. everybody's share value: donations, yield and the rounding losses of others are
+   the only sources of gain.  (Transfers and operations for third parties move wealth by consent.) ---- *)
+Theorem C05_own_operation_never_profits : forall c n0 cs u cl s' v evs,
+  0 <= c_off c -> forallb wf_call cs = true -> u <> V ->
+  let s := run c (init c n0) cs in let P := 10 ^ c_off c in
+  wf_call cl = true -> step c s cl = (s', Ok (v, evs)) ->
+  match cl with
+  | Deposit _ r f o _ | MintS _ r f o _ | Withdraw _ r f o _ | Redeem _ r f o _ =>
+      r = u -> f = u -> o = u ->
+      (bal (asset s') u * (total_supply s' + P) + bal (share s') u * (total_assets s' + 1)) * (total_supply s + P)
+      <= (bal (asset s) u * (total_supply s + P) + bal (share s) u * (total_assets s + 1)) * (total_supply s' + P)
+  | _ => True
+  end.
+Proof. exact own_operation_final. Qed.
+Print Assumptions C05_own_operation_never_profits.
+
+(* all claims are covered: whatever set of distinct holders redeemed everything at the current rate, the vault
+   holds enough - nobody's exit is paid with somebody else's principal *)
+Theorem C05_claims_def : forall c s, claims c s [] = 0 /\
+  forall u l, claims c s (u :: l) =
+    exact Floor (bal (share s) u * (total_assets s + 1)) (total_supply s + 10 ^ c_off c) + claims c s l.
+Proof. exact claims_unfold. Qed.
+Print Assumptions C05_claims_def.
+Theorem C05_all_claims_covered : forall c n0 cs l, 0 <= c_off c -> forallb wf_call cs = true -> NoDup l ->
+  let s := run c (init c n0) cs in
+  claims c s l <= total_assets s.
+Proof. exact claims_covered_final. Qed.
+Print Assumptions C05_all_claims_covered.
+
+(* the LITERAL reading of the headline clause ("never more out than in + donations") is refuted - in the model and,
+   the harness scenario S7-dust agreeing, in the code: without any donation or yield user 1 puts in 10 and takes
+   out 17, the ceil-rounded payments of user 2's ten one-share mints having raised the rate.  This is the
+   behaviour the rest of the property text prescribes (rounding in the vault's = the holders' favour); the clause
+   is proved in the forms above. *)
+Theorem C05_no_profit_literal_refuted :
+  exists c n0 cs u, 0 <= c_off c /\ forallb wf_call cs = true /\ forallb (fun cl => negb (is_donation cl)) cs = true /\
+    bal (asset (run c (init c n0) (firstn 2 cs))) u = 10 /\
+    bal (share (run c (init c n0) cs)) u = 0 /\ bal (asset (run c (init c n0) cs)) u = 17.
+Proof. exact literal_refuted. Qed.
+Print Assumptions C05_no_profit_literal_refuted.
+
 (* ---- every preview returns exactly what the corresponding operation then returns (any state) ---- *)
 Theorem C05_preview_exact : forall c s cl s' v evs, step c s cl = (s', Ok (v, evs)) ->
   match cl with
@@ -255,10 +323,13 @@ Print Assumptions C05_accounting_invariant.
    The monitor also tracks the ledger and every approve's live_until from the call inputs: across any Advance an
    allowance must read unchanged up to its live_until and 0 after it, balances, supply, decimals() and
    query_asset() must read unchanged (state must not lapse with time).
-   wf_hdr: offset and asset decimals are non-negative (u32), the observed universe is not empty;
-   wf_call_obs n: wf_call and the owner whose balance is read lies in the observed universe. ---- *)
+   The monitor checks the trace itself too (Run/C05.v: wf_hdr, wf_call_obs, obs_shape, the clock, the first
+   observation = the empty vault), so these are not assumptions about implementation traces; here they are the
+   conditions on the inputs of the model run:
+   wf_hdr: offset and asset decimals are non-negative (u32), the observed universe is not empty; the start ledger
+   is a u32; wf_call_obs n: wf_call and every address a call names lies in the observed universe. ---- *)
 Theorem C05_monitor_accepts_model : forall c n now0 cs,
-  wf_hdr c n = true -> forallb (wf_call_obs n) cs = true ->
+  wf_hdr c n = true -> in_u32 now0 = true -> forallb (wf_call_obs n) cs = true ->
   check (observe_model c n now0 cs) = (0%N, 0%N, 0%N).
 Proof. exact check_accepts_model. Qed.
 Print Assumptions C05_monitor_accepts_model.
